@@ -21,7 +21,7 @@ def gen_n(per):
                 mem = [(0x200 + i, b) for i, b in enumerate(bs)] + [(0x200 + len(bs), 0x00)]
                 lines.append(pipeline.step_line(cid, st, mem=mem, nsteps=rng.choice([1, 2])))
                 meta[cid] = ("rsweep", "")
-        for j in range(20 if tier == "quick" else 400):
+        for j in range(20 if tier == "quick" else 4000):
             cid = "m%d" % k; k += 1
             st = programs.start_state(rng); st["R"] = rng.choice([0x70, 0xF0, 0xFD])
             mem = {0x100: 0x21, 0x101: 0x00, 0x102: 0x40, 0x103: 0x11, 0x104: 0x00, 0x105: 0x50, 0x106: 0x01, 0x107: rng.below(20) + 1, 0x108: 0x00,
@@ -32,7 +32,7 @@ def gen_n(per):
     return gen
 
 def run(tier, seed):
-    return cpucheck.run(PROP, tier, seed, gen_n((2, 30)), keep=KEEP, search_lines=gen_n((8, 30)),
+    return cpucheck.run(PROP, tier, seed, gen_n((2, 200)), keep=KEEP, search_lines=gen_n((8, 30)),
                         rule="all dispatch cases x R in {0x7F,0xFF,0x7E,0xFE,0x80,0x00,random} and random I / IFF2; all 256 starting R values through LD A,R, LD A,I, NOP, NEG, LD IX,nn, "
                              "a DDCB form and HALT; LDIR + HALT programs with halted Steps and an NMI; real code vs extracted generated model")
 def replay(path):
